@@ -2,7 +2,7 @@ SPECIFICATION Spec
 CONSTANTS
   MaxRoots = 3
   MaxFiles = 3
-  FileFaults = {"D", "H"}
+  FileFaults = {"D", "H", "K"}
   RootFaults = {}
   Combos <- MCCombos
   GenMode = "companion"
